@@ -113,3 +113,43 @@ Proof.
   symmetry. exact (nets_preserved_pkg p tn q pd qd Hwp Htw Hnf Hfl Hwq Hpd Hqd _ _ (Hv x Vx) (Hv y Vy) Tx Ty Vx' Vy').
 Qed.
 Print Assumptions C16E_flatten_after_elaboration_partial.
+
+(* ---------------- non-vacuity: a three-level hierarchy (Cell twice in Mid, Mid twice in Top) with a 2-bit bus handed down
+                    whole through two levels to an external module with a 2-bit port, internal nets at every level ---------------- *)
+Definition ex_E0 : pext := {| px_domain := ""; px_name := "E0"; px_ports := [("x0", 2, 3); ("x1", 1, 3)]; px_spicetype := "SUBCKT" |}.
+Definition ex_leaf (nm bus one : name) : pinst :=
+  {| pi_name := nm; pi_ref := PExt "" "E0"; pi_params := [("tag", "int:1")]; pi_conns := [("x0", PSig bus); ("x1", PSig one)] |}.
+Definition ex_sub (nm of bus one : name) : pinst :=
+  {| pi_name := nm; pi_ref := PLocal of; pi_params := []; pi_conns := [("d", PSig bus); ("g", PSig one)] |}.
+Definition ex_pkg (cell_leaf : pinst) : package :=
+  {| pk_domain := ""; pk_exts := [ex_E0];
+     pk_mods := [ {| pm_name := "Cell"; pm_sigs := [("n", 1); ("d", 2); ("g", 1)]; pm_ports := [("d", 3); ("g", 1)];
+                     pm_insts := [cell_leaf; ex_leaf "e1" "d" "g"]; pm_literals := [] |};
+                  {| pm_name := "Mid"; pm_sigs := [("k", 1); ("b", 2); ("d", 2); ("g", 1)]; pm_ports := [("d", 3); ("g", 1)];
+                     pm_insts := [ex_sub "a" "Cell" "d" "k"; ex_sub "b" "Cell" "b" "g"]; pm_literals := [] |};
+                  {| pm_name := "Top"; pm_sigs := [("s", 1); ("w", 2); ("p", 2)]; pm_ports := [("p", 3)];
+                     pm_insts := [ex_sub "l" "Mid" "p" "s"; ex_sub "r" "Mid" "w" "s"; ex_leaf "e" "p" "s"]; pm_literals := [] |} ] |}.
+Definition ex_p := ex_pkg (ex_leaf "e0" "d" "n").
+
+Example C16E_ex_hypotheses : wf_pkg prims_ext ex_p = Ok tt /\ tree_wf ex_p "Top" = true /\ pkg_is_flat ex_p "Top" = false /\
+  exists q, flatten_pkg ex_p "Top" = Ok q /\ wf_pkg prims_ext q = Ok tt /\ flat_top ex_p "Top" = "Top_flat" /\
+    (exists qd, design_of_pkg prims_ext q "Top_flat" = Ok qd) /\
+    map (fun m => (pm_name m, pm_sigs m, map pi_name (pm_insts m))) (pk_mods q) =
+      [("Top_flat", [("l:a:n", 1); ("l:k", 1); ("l:b", 2); ("l:b:n", 1); ("s", 1); ("w", 2); ("r:a:n", 1); ("r:k", 1); ("r:b", 2); ("r:b:n", 1); ("p", 2)],
+        ["l:a:e0"; "l:a:e1"; "l:b:e0"; "l:b:e1"; "r:a:e0"; "r:a:e1"; "r:b:e0"; "r:b:e1"; "e"])].
+Proof.
+  split; [vm_compute; reflexivity|]. split; [vm_compute; reflexivity|]. split; [vm_compute; reflexivity|].
+  eexists. split; [vm_compute; reflexivity|]. split; [vm_compute; reflexivity|]. split; [vm_compute; reflexivity|].
+  split; [eexists; vm_compute; reflexivity|]. vm_compute. reflexivity.
+Qed.
+
+(* bit 1 of port x0 of the leaf e0 two levels down (l -> a -> e0) is a terminal bit, valid in the hierarchical package *)
+Example C16E_ex_terminal : term_bit ex_p "Top" (NPort [("a", 0); ("l", 0)] "e0" 0 "x0" 1) /\
+  trn (NPort [("a", 0); ("l", 0)] "e0" 0 "x0" 1) = NPort [] "l:a:e0" 0 "x0" 1.
+Proof. split; [unfold term_bit; vm_compute; tauto|vm_compute; reflexivity]. Qed.
+
+(* a bus slice one level down is rejected, by the model as by flatten.py (NotImplementedError) - also at a LEAF instance *)
+Example C16E_ex_slice_rejected :
+  flatten_pkg (ex_pkg {| pi_name := "e0"; pi_ref := PExt "" "E0"; pi_params := [];
+                         pi_conns := [("x0", PSig "d"); ("x1", PSlice "d" 0 0)] |}) "Top" = Error EBadKind.
+Proof. vm_compute. reflexivity. Qed.
